@@ -90,7 +90,9 @@ def ObtainQuantity(
                 category = category[0]
         else:
             assert isinstance(category, (list, tuple))
-            unit = OrderedDict((cat, unit_and_exp) for (cat, unit_and_exp) in zip(category, unit))
+            unit = OrderedDict(
+                (cat, list(unit_and_exp)) for (cat, unit_and_exp) in zip(category, unit)
+            )
             category = None
 
     if isinstance(unit, dict):
